@@ -448,12 +448,12 @@ pub fn run(ctx: &Ctx) -> Report {
     rep.exhaustive = false; // only part (1) is a completed finite space; (2),(3) are sampled
 
     // (2) random utf-8
-    let out = run_random(ctx.seed, ctx.tier.pick(400_000, 20_000_000), 400, decode_utf8_case, oracle);
+    let out = run_random(ctx.seed, ctx.tier.pick(2_000_000, 30_000_000), 400, decode_utf8_case, oracle);
     rep.absorb(out);
     // (3) encoding_rs
     let out = run_random(
         ctx.seed ^ 0x10,
-        ctx.tier.pick(200_000, 8_000_000),
+        ctx.tier.pick(600_000, 10_000_000),
         600,
         decode_enc_case,
         oracle,
